@@ -36,6 +36,29 @@ row("crate::support::postgres::<impl postgres_types::FromSql<'a> for %s>::from_s
     "Overflow(Sub:i,1)",
     "raw[i - 1] inside `for i in (1..raw.len()).rev()`: i >= 1 (Rev<Range> is not modelled by the interval engine)")
 
+# ---- counting functions (C06) and what is built on them
+for fn, f in (("trailing_zeros", "trailing_zeros"), ("trailing_ones", "trailing_ones")):
+    clo = "crate::bits::<impl %s>::%s::{closure#1}" % (U, fn)
+    row(clo, "assert:Overflow", "Overflow(Mul:n,64)",
+        "n * 64 with n a position() over the LIMBS-long limb array: n < LIMBS, so the product is < 64 * LIMBS, far below "
+        "usize::MAX for every type that can exist (core post-condition of position)")
+    row(clo, "assert:Overflow", "Overflow(Add:Mul(n,64),%s())" % f,
+        "n * 64 + u64::%s() <= 64 * (LIMBS - 1) + 64" % f)
+row("crate::bits::<impl %s>::count_ones" % U, "assert:Overflow", "Overflow(Add:total,count_ones())",
+    "total accumulates at most 64 per limb over LIMBS iterations: <= 64 * LIMBS (loop accumulation, not an interval fact "
+    "after widening)")
+row("crate::bits::<impl %s>::count_zeros" % U, "assert:Overflow", "Overflow(Sub:BITS,count_ones())",
+    "BITS - count_ones(): a canonical value has no bit at or above BITS set (C04, decided by R-CANON), so count_ones <= BITS")
+row("crate::bits::<impl %s>::most_significant_bits" % U, "assert:Overflow", "Overflow(Shl:hi,leading_zeros)",
+    "hi << hi.leading_zeros(): hi is the limb rposition(|l| l != 0) selected, hence non-zero and leading_zeros <= 63 "
+    "(the shift check is on the amount only)")
+row("crate::log::<impl %s>::log" % U, "assert:Overflow", "Overflow(Sub:bit_len(),1)",
+    "self.bit_len() - 1 after assert!(!self.is_zero()): a non-zero value has bit_len >= 1 (relation between is_zero and "
+    "bit_len, the statement of C06 for bit_len)")
+row("crate::algorithms::mul::submul_nx1", "assert:Overflow", "Overflow(Add:borrow,carry)",
+    "borrow + carry at the end of the multiply-subtract loop: borrow <= 1 and carry, the high half of a * b + carry_in, "
+    "is <= 2^64 - 2 (kernel value contract, C15 N/A; reviewed)")
+
 if __name__ == "__main__":
     out = os.path.join(os.path.dirname(os.path.dirname(os.path.abspath(__file__))), "overflow.json")
     with open(out, "w") as fh:
